@@ -143,6 +143,48 @@ func CopyScenario(seed int64) (fails []string, line string) {
 		tr[0] = nil
 	}
 	check("Tracers()")
+	// a list handed to a getter stays what it was (the shared StateNames() list included)
+	if !broken {
+		type argCall struct {
+			what string
+			f    func(l am.S)
+		}
+		calls := []argCall{
+			{"ActiveStates(states)", func(l am.S) { m.ActiveStates(l) }},
+			{"Time(states)", func(l am.S) { m.Time(l) }},
+			{"Clock(states)", func(l am.S) { m.Clock(l) }},
+			{"Is(states)", func(l am.S) { m.Is(l) }},
+			{"Not(states)", func(l am.S) { m.Not(l) }},
+			{"Any(states)", func(l am.S) { m.Any(l) }},
+			{"Has(states)", func(l am.S) { m.Has(l) }},
+			{"Index(states)", func(l am.S) { m.Index(l) }},
+			{"ParseStates(states)", func(l am.S) { m.ParseStates(l) }},
+			{"WillBe(states)", func(l am.S) { m.WillBe(l) }},
+		}
+		lists := []am.S{{"B", "A", "G", "D"}, {"D", "C", "B", "A", "G"}, append(make(am.S, 0, 8), "C", "G", "A")}
+		for _, ac := range calls {
+			for _, orig := range lists {
+				arg := append(make(am.S, 0, cap(orig)), orig...)
+				ac.f(arg)
+				if !reflect.DeepEqual(arg, orig) {
+					fails = append(fails, fmt.Sprintf("modifying its argument: %s rewrote the list it was given, %v became %v", ac.what, orig, arg))
+					broken = true
+					break
+				}
+			}
+			if broken {
+				break
+			}
+			// the machine's own shared list as the argument
+			ac.f(m.StateNames())
+			if !reflect.DeepEqual(m.StateNames(), names) {
+				fails = append(fails, fmt.Sprintf("modifying its argument: %s called with StateNames() rewrote the machine's state names to %v", ac.what, m.StateNames()))
+				broken = true
+				break
+			}
+		}
+		check("a getter called with a list")
+	}
 	if broken {
 		return fails, line
 	}
